@@ -157,14 +157,23 @@ def judge(ctx, case, obs, mouts):
                 return float(a) == b
             return a == b
 
-        def check_left_cols(rows):
+        def check_left_cols(rows, loose=()):
+            # `loose`: key columns of a full join. A row appended from the right side carries the right
+            # frame's key value, which is *equal* to the left row's key but need not be the same bit
+            # pattern (0.0 and -0.0): the property demands equal keys there, not identical bytes.
             for c in L["cols"]:
                 got = obs["cols"].get(c["name"])
                 if got is None:
                     return f"left column {c['name']} missing"
                 for j, i in enumerate(rows):
-                    if i is not None and not same(c["kind"], lcan[c["name"]][i], got[j]):
-                        return f"left column {c['name']} changed at output row {j}"
+                    if i is None or same(c["kind"], lcan[c["name"]][i], got[j]):
+                        continue
+                    if c["name"] in loose:
+                        a, b = lcan[c["name"]][i], got[j]
+                        if not vecgen.canon_is_na(c["kind"], a) and not vecgen.canon_is_na(c["kind"], b) \
+                                and vecgen.sort_key(c["kind"], a) == vecgen.sort_key(c["kind"], b):
+                            continue
+                    return f"left column {c['name']} changed at output row {j}"
             return None
         if op in ("semi", "anti"):
             exp = [i for i in range(nl) if (fm[i] is not None) == (op == "semi")]
@@ -205,7 +214,7 @@ def judge(ctx, case, obs, mouts):
                                 ctx.violation("oracle", "full:unequal-keys", "full_join paired rows with unequal or missing keys", case, obs)
                                 break
                 # whole rows: left columns at lid, right payload at rid (or missing)
-                p = check_left_cols([a for a, b in pairs])
+                p = check_left_cols([a for a, b in pairs], loose=set(x[0] for x in by) if op == "full" else ())
                 if p:
                     ctx.violation("oracle", f"{op}:left-changed", p, case, obs)
                 got = obs["cols"].get("rp")
